@@ -1,7 +1,7 @@
 """C09: file data written through libext2fs reads back exactly -- explicit-state BFS over file-operation histories (engines/fileopx.c)
 on the real library, byte-array reference model, read-back of both files after every operation; every distinct final state is also
 given to e2fsck -fn and the independent checker (i_blocks, bitmaps)."""
-import os, json, subprocess, shutil, itertools
+import os, json, subprocess, shutil, itertools, time
 from vlib.common import *
 from vlib import fsweep
 from xck.check import check as xcheck
@@ -108,7 +108,10 @@ def main(tier, only=None):
             run([tool('debugfs'), '-w', '-R', 'write /dev/null A', p]); run([tool('debugfs'), '-w', '-R', 'write /dev/null B', p])
             BASES[name] = p
     total_tr = 0; total_states = 0; per = {}; maxdepth = 0
+    t_end = ck.t0 + (420 if quick else 3000); nleft = len(BASES)
     for name in BASES:
+        # every configuration gets an equal share of the remaining time
+        ck.deadline = min(t_end, time.time() + max(20.0, (t_end - time.time()) / max(1, nleft))); nleft -= 1
         bs = CONFIGS[name.replace('_full', '')][1]
         depth = 3 if (not quick or name in ('extent', 'blockmap')) else 2
         seen = {}; level = ['']
@@ -121,7 +124,12 @@ def main(tier, only=None):
                 level = [h for h in level if h.split()[-1][:3] in ('t:A', 'p:A')]
             hists = [(h + ' ' + o).strip() for h in level for o in ops]
             chunks = [hists[i:i + 400] for i in range(0, len(hists), 400)]
-            res = pmap(run_batch, [(name, c) for c in chunks], chunksize=1)
+            # the level is processed in slices so that the global deadline can end it (the evidence then says exhaustive: false and which depth was completed)
+            res = []; cut = False
+            for i0 in range(0, len(chunks), 128):
+                if ck.expired(): cut = True; break
+                res += pmap(run_batch, [(name, c) for c in chunks[i0:i0 + 128]], chunksize=1)
+            if cut: ck.add(exhaustive=False)
             nxt = []
             for batch in res:
                 for r in batch:
@@ -134,10 +142,12 @@ def main(tier, only=None):
                         if not r['degraded']: nxt.append(r['h'])
                         dmax = d
             level = nxt
-            if not level: break
+            if cut: dmax = d - 1
+            if not level or cut: break
         # consistency of every distinct state (thorough) / of a deterministic third of them (quick)
         st = sorted(seen.values())
         if quick: st = st[::3]
+        if len(st) > 20000: st = st[::(len(st) + 19999) // 20000]          # bounded number of full consistency checks per configuration (deterministic stride)
         cres = pmap(check_state, [(name, h) for h in st], chunksize=8)
         for cfg, h, msg in cres:
             if msg: ck.violation('%s :: %s :: consistency' % (name, h), {'config': name, 'history': h, 'what': msg, 'root_cause_class': inline_class(name, msg)})
